@@ -7,12 +7,12 @@ mod c14;
 fn main() {
     let args = Args::parse();
     explorer::quiet_panics();
-    let code = match args.property.as_str() {
+    let code = explorer::guard_main(&args.property, || match args.property.as_str() {
         "C14" => c14::run(Report::new(&args, "model_checking")),
         other => {
             eprintln!("vh-misc: unknown property {other}");
             2
         }
-    };
+    });
     std::process::exit(code);
 }
